@@ -8,6 +8,9 @@ import SimuVerif.Model.RemeshChecks
 import SimuVerif.Model.RemeshMergeChecks
 import SimuVerif.Lemmas.RemeshMerge
 import SimuVerif.Lemmas.RemeshMerge9
+import SimuVerif.Lemmas.SurfaceManifold
+import SimuVerif.Lemmas.RemeshMerge10
+import SimuVerif.Lemmas.RemeshMerge11
 /-
   C01 — cell surfaces stay closed, consistently oriented 2-manifolds under remeshing.
 
@@ -91,6 +94,42 @@ theorem reach_inv {T₀ T : List Tri} (h₀ : Inv T₀) (r : Reach T₀ T) : Inv
   induction r with
   | refl => exact h₀
   | step _ op en ih => exact step_inv ih op en
+
+/-! ### vertex-manifoldness
+
+  `Inv` alone allows a PINCHED node (its link consists of several cycles); the collapse refinement needs that the faces
+  around a node form a single cycle.  `VMC T v` = the link of `v` (directed graph on the neighbours, `x → y` iff a triangle
+  is a rotation of `(v,x,y)`) is connected; under `Inv` every link node has exactly one outgoing and one incoming edge
+  (`Surface.lk_out_unique`, `lk_in_unique`, `lk_out_total`, `lk_in_total`), so a connected link is a single cycle.
+  It is preserved by every enabled operation, hence over every history. -/
+
+theorem split_vmc {T : List Tri} (h : Inv T) (hv : AllVMC T) (a b e : Nat) (en : Enabled T (.split a b e)) :
+    AllVMC (splitT T a b e) := Surface.split_vmc h hv en.1 en.2
+
+theorem swap_vmc {T : List Tri} (h : Inv T) (hv : AllVMC T) (a b : Nat) (en : Enabled T (.swap a b)) :
+    AllVMC (swapT T a b) := Surface.swap_vmc h hv en
+
+theorem collapse_vmc {T : List Tri} (h : Inv T) (hv : AllVMC T) (a b i : Nat) (en : Enabled T (.collapse a b i)) :
+    AllVMC (collapseT T a b i) := by
+  obtain ⟨t1, t2, h1, h2, hl, hi⟩ := en
+  exact Surface.collapse_vmc h hv h1 h2 hl.1 hi
+
+theorem rename_vmc {T : List Tri} (hv : AllVMC T) (ρ : Nat → Nat) (en : Enabled T (.rename ρ)) :
+    AllVMC (renameT ρ T) := Surface.rename_vmc ρ en hv
+
+theorem step_vmc {T : List Tri} (h : Inv T) (hv : AllVMC T) (op : Op) (en : Enabled T op) : AllVMC (apply T op) := by
+  cases op with
+  | split a b e => exact split_vmc h hv a b e en
+  | swap a b => exact swap_vmc h hv a b en
+  | collapse a b i => exact collapse_vmc h hv a b i en
+  | rename ρ => exact rename_vmc hv ρ en
+  | move => exact hv
+
+/-- **every node of every reachable surface is vertex-manifold**, if every node of the starting surface is -/
+theorem reach_vertex_manifold {T₀ T : List Tri} (h₀ : Inv T₀) (hv : AllVMC T₀) (r : Reach T₀ T) : AllVMC T := by
+  induction r with
+  | refl => exact hv
+  | step hr op en ih => exact step_vmc (reach_inv h₀ hr) ih op en
 
 /-! ### Euler characteristic -/
 
@@ -327,6 +366,77 @@ theorem merge_executed_refines {fn : Fn R} {k : SplitConsts R} {c c' : Cell R} {
     Remesh.abs c' = collapseT (Remesh.abs c) e.n1 e.n2 (Simu.C11.newSlot c) ∧ Inv (Remesh.abs c') ∧
       FaceFreeOk c' ∧ EdgeIdxComplete c' :=
   mergeEdge_executed hg h hI hf hentry hord mA mB hfresh hInv hs
+
+/-! #### vertex-manifoldness of the concrete state
+
+  The fan form (`VertexManifold c v`: the live face SLOTS around `v` form one cycle — what the collapse proof consumes and
+  what the driver checks) is, under the surface invariant, the same as connectedness of the link of `v` in the live
+  triangle list (`VMC`, the notion `reach_vertex_manifold` is about); the three concrete operations preserve it. -/
+
+theorem vertex_manifold_iff_link_connected {c : Cell R} (hI : Inv (Remesh.abs c)) {v x x' : Nat}
+    (h0 : Lk (Remesh.abs c) v x x') : VertexManifold c v ↔ VMC (Remesh.abs c) v :=
+  vertexManifold_iff_vmc hI h0
+
+theorem concrete_split_vmc {fn : Fn R} {k : SplitConsts R} {c c' : Cell R} {e : Edge} {chk chk' : CheckSet}
+    (h : splitEdge fn k c e chk = .ok (c', chk')) (hf : FaceFreeOk c) (hI : Inv (Remesh.abs c))
+    (hab : e.n1 ≠ e.n2) (he : EdgeFaces c e e.n1 e.n2) (hfresh : Fresh (Remesh.abs c) (Simu.C11.newSlot c))
+    (hg : ∀ t1 t2, findDir (Remesh.abs c) e.n1 e.n2 = some t1 → findDir (Remesh.abs c) e.n2 e.n1 = some t2 →
+      opp t1 e.n1 e.n2 ≠ opp t2 e.n2 e.n1) (hv : AllVMC (Remesh.abs c)) : AllVMC (Remesh.abs c') :=
+  splitEdge_vmc h hf hI hab he hfresh hg hv
+
+theorem concrete_swap_vmc {fn : Fn R} {c c' : Cell R} {e : Edge}
+    (h : swapEdge fn c e = .ok c') (hf : FaceFreeOk c) (hI : Inv (Remesh.abs c))
+    (hab : e.n1 ≠ e.n2) (he : EdgeFaces c e e.n1 e.n2) (hidx : EdgeIdxSound c)
+    (hg : SwapGuard (Remesh.abs c) e.n1 e.n2) (hv : AllVMC (Remesh.abs c)) : AllVMC (Remesh.abs c') :=
+  swapEdge_vmc h hf hI hab he hidx hg hv
+
+theorem concrete_merge_vmc {fn : Fn R} {k : SplitConsts R} {c c' : Cell R} {e : Edge} {chk chk' : CheckSet}
+    {kA kB : Nat} {FA NA FB NB : Nat → Nat}
+    (h : mergeEdge fn k c e chk = .ok (c', chk')) (H : MergeHyp c e kA kB FA NA FB NB) (hI : Inv (Remesh.abs c))
+    {t1 t2 : Tri} (h1 : findDir (Remesh.abs c) e.n1 e.n2 = some t1) (h2 : findDir (Remesh.abs c) e.n2 e.n1 = some t2)
+    (hl : LinkCond (Remesh.abs c) e.n1 e.n2 (opp t1 e.n1 e.n2) (opp t2 e.n2 e.n1)) (hv : AllVMC (Remesh.abs c)) :
+    AllVMC (Remesh.abs c') :=
+  mergeEdge_vmc h H hI h1 h2 hl hv
+
+/-- the executed collapse with vertex-manifoldness in its invariant form: all hypotheses about the surface are invariants
+    (`Inv`, `AllVMC`, `EdgeIdxComplete`, `FaceFreeOk`), all of them hold again afterwards -/
+theorem merge_executed_invariants {fn : Fn R} {k : SplitConsts R} {c c' : Cell R} {e E : Edge} {chk chk' : CheckSet}
+    (hg : canBeMerged c e = .ok true) (h : mergeEdge fn k c e chk = .ok (c', chk'))
+    (hI : EdgeIdxComplete c) (hf : FaceFreeOk c) (hentry : getEdge c e.n1 e.n2 = some E)
+    (hord : (E.f1 = e.f1 ∧ E.f2 = e.f2) ∨ (E.f1 = e.f2 ∧ E.f2 = e.f1))
+    (hv : AllVMC (Remesh.abs c)) (hfresh : Fresh (Remesh.abs c) (Simu.C11.newSlot c)) (hInv : Inv (Remesh.abs c))
+    (hs : SortSpecAt c e) :
+    Remesh.abs c' = collapseT (Remesh.abs c) e.n1 e.n2 (Simu.C11.newSlot c) ∧ Inv (Remesh.abs c') ∧
+      FaceFreeOk c' ∧ EdgeIdxComplete c' ∧ AllVMC (Remesh.abs c') :=
+  mergeEdge_executed_vmc hg h hI hf hentry hord hv hfresh hInv hs
+
+/-! #### total correctness of the collapse -/
+
+/-- under the hypotheses of `merge_refines`, and if the two end nodes are slots of the node array, `merge_edge` returns:
+    the two `replace_node` walks never run out of fuel and never hit a missing face id / edge / face, neither do the two
+    `delete_face` calls -/
+theorem merge_defined {fn : Fn R} {k : SplitConsts R} {c : Cell R} {e : Edge} {chk : CheckSet}
+    {kA kB : Nat} {FA NA FB NB : Nat → Nat} (H : MergeHyp c e kA kB FA NA FB NB)
+    {na nb : Node R} (hna : c.nodes[e.n1]? = some na) (hnb : c.nodes[e.n2]? = some nb) :
+    ∃ r, mergeEdge fn k c e chk = .ok r :=
+  mergeEdge_defined H hna hnb
+
+/-- in a state that passes the driver's check the collapse is defined and is the abstract collapse -/
+theorem merge_checked_defined {fn : Fn R} {k : SplitConsts R} {c : Cell R} {e : Edge} {chk : CheckSet}
+    (hc : chkMergeHyps c e = true) {na nb : Node R} (hna : c.nodes[e.n1]? = some na)
+    (hnb : c.nodes[e.n2]? = some nb) :
+    ∃ c' chk', mergeEdge fn k c e chk = .ok (c', chk') ∧
+      Remesh.abs c' = collapseT (Remesh.abs c) e.n1 e.n2 (Simu.C11.newSlot c) ∧ Inv (Remesh.abs c') ∧
+      FaceFreeOk c' ∧ EdgeIdxComplete c' := by
+  obtain ⟨kA, kB, FA, NA, FB, NB, H, _⟩ := merge_checks_sound c e hc
+  obtain ⟨⟨c', chk'⟩, h⟩ := mergeEdge_defined (fn := fn) (k := k) (chk := chk) H hna hnb
+  exact ⟨c', chk', h, merge_checked hc h⟩
+
+/-- `delete_face` on a non-degenerate live face of a complete index returns -/
+theorem delete_face_defined {c : Cell R} {fid : Nat} {t : Tri} (hI : EdgeIdxComplete c)
+    (ht : (slots c)[fid]? = some (some t)) (hn : t.1 ≠ t.2.1 ∧ t.2.1 ≠ t.2.2 ∧ t.2.2 ≠ t.1) :
+    ∃ c', deleteFace c fid = .ok c' :=
+  deleteFace_defined hI ht hn
 
 /-! #### the edge index stays sound and complete under all three operations -/
 
